@@ -65,6 +65,11 @@ pub struct ReplayFile {
     pub thorough: bool,
     pub minimised: bool,
     pub known_finding: Option<String>,
+    /// run indices (of the same VERIF_SEED and tier) that must be executed in the same
+    /// process before this run for the violation to show: state leaked from earlier runs.
+    /// Empty for the usual self-contained replay.
+    #[serde(default)]
+    pub history: Vec<u64>,
     pub workload: serde_json::Value,
     pub tape: Vec<TapeEntry>,
     pub events: Vec<Event>,
